@@ -21,11 +21,11 @@ CACHEMON = {
     'C07': {'quick': {'cases': 4000, 'budget_s': 50}, 'thorough': {'cases': 60000, 'budget_s': 600},
             'floor': 100, 'req': ['c07_drop_hook_evals', 'c07_boundary_checks', 'c07_unstorable_retrievability_checks', 'c07_unstorable_purges_that_raised']},
     'C15': {'quick': {'cases': 4000, 'budget_s': 50}, 'thorough': {'cases': 60000, 'budget_s': 600},
-            'floor': 150, 'req': ['c15_checks', 'c15_mgmt_checks']},
+            'floor': 150, 'req': ['c15_checks', 'c15_mgmt_checks', 'c15_sibling_function_cases', 'stacked_decorator_cases']},
     'C16': {'quick': {'cases': 2800, 'budget_s': 50}, 'thorough': {'cases': 40000, 'budget_s': 600},
             'floor': 100, 'req': ['c16_raise_checks', 'twin_runs', 'calls_degraded']},
     'C18': {'quick': {'cases': 2800, 'budget_s': 50}, 'thorough': {'cases': 40000, 'budget_s': 600},
-            'floor': 100, 'req': ['c18_introspection_checks', 'twin_runs']},
+            'floor': 100, 'req': ['c18_introspection_checks', 'twin_runs', 'stacked_decorator_cases']},
     'C20': {'quick': {'cases': 4000, 'budget_s': 50}, 'thorough': {'cases': 40000, 'budget_s': 600},
             'floor': 100, 'req': ['c20_roundtrips', 'c20_lockstep_steps', 'c20_independence_checks',
                                   'c20_continuations_with_eviction', 'c20_cross_process_restores']},
